@@ -133,6 +133,16 @@ def run_for(ctx, pid):
         for e in sevs:
             e['hasprog'] = False
         ctx.cov['jq_sliced_binary_decodes'] = len(sevs)
+    if pid == 'C12':
+        bp = os.path.join(ctx.build, 'jq_ev_bigarr.ndjson')
+        ctx.run([ctx.go_build('jqtree'), 'bigarr', bp], check=True, timeout=600)
+        bevs = vlib.read_ndjson(bp)
+        for e in bevs:
+            e['hasprog'] = False
+            if e['jqerr']:
+                raise Inconclusive('big array observation failed: %s' % e['jqerr'][:300])
+        sevs = sevs + bevs
+        ctx.cov['jq_big_arrays'] = [e['len'] for e in bevs]
     allev = evs + cevs + sevs
     bad = [e for e in allev if e['jqerr']]
     if len(bad) > len(allev) // 20:
@@ -148,7 +158,7 @@ def run_for(ctx, pid):
         for sig in rej[i]:
             if sig.startswith(pref) or sig == 'path.node_count_differs':
                 what = treearm.describe(e) if e['hasprog'] else e['what']
-                s2 = sig if (e['hasprog'] or e.get('kind') == 'slice') else '%s@%s' % (sig, corpusarm.family(e['what'].split(' ')[0]))
+                s2 = sig if (e['hasprog'] or e.get('kind') in ('slice', 'bigarr')) else '%s@%s' % (sig, corpusarm.family(e['what'].split(' ')[0]))
                 ctx.finding(s2, what, dict(what=e['what'], prog=e['prog'], len=e['len'], force=e['force']))
     ev = next((e for e in evs if len(e['nodes']) >= 5), evs[0])
     ctx.sample(dict(kind='tree observed through jq', program=treearm.describe(ev),
